@@ -79,6 +79,8 @@ def explore(desc, make_case, owns, signature, classify=None, sample_pred=None, m
                     continue
                 for s_ in signature(case, ck, log, fault) or []:
                     sigs.add(h(s_))
+                for k_, v_ in case.pop("_counters", {}).items():
+                    counters[k_] = counters.get(k_, 0) + v_
                 if len(samples) < max_samples and (sample_pred is None or sample_pred(case, ck, log, fault)):
                     samples.append({
                         "class_source": run.source, "steps": sc.steps[:6], "fault": fault, "driver": sc.driver,
